@@ -22,7 +22,7 @@ class Prop(PropBase):
 
     def generate(self, rng, tier):
         out = []
-        base = 20000 + (os.getpid() * 13) % 20000
+        base = 20000 + (os.getpid() % 30) * 100      # a port block of this property only, below the ephemeral range
         L = self.L
         l = L['RS32']
         ms = scen.MechStream(rng, l)
